@@ -594,6 +594,19 @@ class Engine(
             case BinaryOperationRelation(operation=Chain(), lhs=lhs, rhs=rhs):
                 lhs_executable = self._select_to_executable(cast(Select, lhs), extra_columns)
                 rhs_executable = self._select_to_executable(cast(Select, rhs), extra_columns)
+                # UNION pairs columns by position, while each operand lists its
+                # columns in the iteration order of its own column set; make the
+                # second operand follow the order of the first.
+                lhs_names = [column.name for column in lhs_executable.selected_columns]
+                if [column.name for column in rhs_executable.selected_columns] != lhs_names:
+                    if isinstance(rhs_executable, sqlalchemy.sql.Select):
+                        rhs_columns = rhs_executable.selected_columns
+                        rhs_executable = rhs_executable.with_only_columns(
+                            *[rhs_columns[name] for name in lhs_names], maintain_column_froms=True
+                        )
+                    else:
+                        rhs_subquery = rhs_executable.subquery()
+                        rhs_executable = sqlalchemy.sql.select(*[rhs_subquery.columns[name] for name in lhs_names])
                 if select.has_deduplication:
                     executable = sqlalchemy.sql.union(lhs_executable, rhs_executable)
                 else:
